@@ -148,7 +148,9 @@ def numeric_case():
         return {"family": "numeric", "kind": kind, "dtype": dtype, "tokens": draw(st.lists(tok, min_size=n, max_size=n)),
                 "count": count, "via": draw(st.sampled_from(["add", "add", "set"])),
                 "explicit": draw(st.booleans()), "assoc": draw(st.sampled_from(["VERTEX", "CELL"])),
-                "allow_known": draw(st.integers(0, 9)) == 0}
+                "allow_known": draw(st.integers(0, 9)) == 0,
+                # the same entries offered as a column, a row or an (n, 2) block
+                "shape2d": draw(st.sampled_from([None] * 6 + ["col", "row", "block", "block"]))}
 
     return build()
 
